@@ -7,6 +7,7 @@ CONSTANTS
   MaxDisc = 1
   MaxSubs = 0
   Sequential = FALSE
+  Abandons = FALSE
   Timeouts = FALSE
   Limits <- NoLimits
   Affs <- NoAffs
